@@ -17,6 +17,7 @@ import (
 )
 
 var registry = map[string]func(*rules.Ctx){
+	"C02": rules.C02,
 	"C04": rules.C04,
 	"C05": rules.C05,
 	"C06": rules.C06,
@@ -27,6 +28,7 @@ var registry = map[string]func(*rules.Ctx){
 	"C12": rules.C12,
 	"C14": rules.C14,
 	"C15": rules.C15,
+	"C16": rules.C16,
 	"C17": rules.C17,
 	"C18": rules.C18,
 	"C19": rules.C19,
